@@ -46,6 +46,14 @@ var axiomGroups = map[string]axiomGroup{
 		text: `(assert (forall ((s Str) (p Str)) (! (= (hasPrefix s p) (and (>= (slen s) (slen p)) (= (substr s 0 (slen p)) p))) :pattern ((hasPrefix s p)))))
 (assert (forall ((s Str) (p Str)) (! (= (hasSuffix s p) (and (>= (slen s) (slen p)) (= (substr s (- (slen s) (slen p)) (slen s)) p))) :pattern ((hasSuffix s p)))))
 `},
+	"indexbyte": {
+		deps:  []string{"str"},
+		needs: []Decl{{"indexByte", []*Sort{StrSort, IntSort}, IntSort}, {"lastIndexByte", []*Sort{StrSort, IntSort}, IntSort}},
+		text: `(assert (forall ((s Str) (c Int)) (! (and (<= (- 1) (indexByte s c)) (< (indexByte s c) (slen s)) (=> (>= (indexByte s c) 0) (= (select (sbytes s) (indexByte s c)) c))) :pattern ((indexByte s c)))))
+(assert (forall ((s Str) (c Int) (j Int)) (! (=> (and (<= 0 j) (< j (slen s)) (= (select (sbytes s) j) c)) (and (<= 0 (indexByte s c)) (<= (indexByte s c) j))) :pattern ((indexByte s c) (select (sbytes s) j)))))
+(assert (forall ((s Str) (c Int)) (! (and (<= (- 1) (lastIndexByte s c)) (< (lastIndexByte s c) (slen s)) (=> (>= (lastIndexByte s c) 0) (= (select (sbytes s) (lastIndexByte s c)) c))) :pattern ((lastIndexByte s c)))))
+(assert (forall ((s Str) (c Int) (j Int)) (! (=> (and (<= 0 j) (< j (slen s)) (= (select (sbytes s) j) c)) (>= (lastIndexByte s c) j)) :pattern ((lastIndexByte s c) (select (sbytes s) j)))))
+`},
 	"alloc": {
 		needs: []Decl{{"allocId", []*Sort{RefSort}, IntSort}, {"null", nil, RefSort}},
 		text:  "(assert (<= (allocId null) 0))\n",
